@@ -37,6 +37,7 @@ def _work(args):
     cfg = make_cfg(rng, caps)
     if force == "c18":      # the same programs un-decorated, decorated, decorated with live output
       cfg["spied"], cfg["live"] = (tid % 3 != 0), (tid % 3 == 2)
+      cfg["early"] = rng.random() < 0.4      # posts that race start_at (and the live output of the start)
     kind = kinds[tid % len(kinds)]
     if kind == "guided" and guided:
       g = guided[tid % len(guided)]
